@@ -6,7 +6,8 @@ from vf.gen import pick_weighted
 
 ID = "C33"
 THEOREMS = ["C33_isolated", "C33_shared", "C33_own_read", "C33_common_keeps_private", "C33_private_paths",
-            "C33_common_paths", "C33_bisect_refuted", "C33_routing_refuted", "C33_add_files"]
+            "C33_common_paths", "C33_routing_eq_families", "C33_per_worktree_refs_refuted", "C33_bisect_refuted",
+            "C33_routing_refuted", "C33_add_files"]
 MODEL_FILES = ["WtRoute.v"]
 MODELLED = ("storage/filesystem/dotgit/repository_filesystem.go mapToRepositoryFsByPath for clean relative paths (exact "
             "exceptions, first path element) and the dual filesystem it induces; x/plumbing/worktree Add: name rule and "
